@@ -574,6 +574,10 @@ static void parse_hostname(struct iauth_request *req, char hostname[])
         iauth_send_opers("ircd sent garbage: -1 N ...");
         return;
     }
+    if (!hostname) {
+        iauth_send_opers("ircd sent garbage: <id> N without hostname");
+        return;
+    }
     if (req->hostname[0] != '\0')
         return;
     strncpy(req->hostname, hostname, HOSTLEN);
@@ -611,6 +615,10 @@ static void parse_password(struct iauth_request *req, char password[])
 
     if (!req) {
         iauth_send_opers("ircd sent garbage: -1 P ...");
+        return;
+    }
+    if (!password) {
+        iauth_send_opers("ircd sent garbage: <id> P without password");
         return;
     }
     BITSET_SET(req->flags, IAUTH_GOT_PASSWORD);
@@ -680,6 +688,10 @@ static void parse_nick(struct iauth_request *req, char nick[])
 
     if (!req) {
         iauth_send_opers("ircd sent garbage: -1 n ...");
+        return;
+    }
+    if (!nick) {
+        iauth_send_opers("ircd sent garbage: <id> n without nickname");
         return;
     }
     strncpy(req->nickname, nick, NICKLEN);
